@@ -5,7 +5,7 @@
 (* joined by routers with 2..MaxPorts ports, with the station patterns      *)
 (* PatsFor(N) on the networks; TLC picks the topology, cold / warm caches   *)
 (* and the (source, kind, destination) of the message in Init / Next.       *)
-(* Cyc = two small internetworks with a cycle, for termination.             *)
+(* Cyc = small internetworks with a cycle, for termination.                 *)
 (***************************************************************************)
 EXTENDS Router, SequencesExt
 
@@ -61,8 +61,12 @@ mcTopos == SetToSeq(Family)
 Triangle == MkTopo(<< <<1, 2>>, <<2, 3>>, <<3, 1>> >>, <<KU, K, U>>)
 Parallel == MkTopo(<< <<1, 2>>, <<1, 2>> >>, <<KU, K>>)
 Square == MkTopo(<< <<1, 2>>, <<2, 3>>, <<3, 4>>, <<4, 1>> >>, <<K, U, K, U>>)
-mcCyc == <<Triangle, Parallel>>
-mcCycBig == <<Triangle, Parallel, Square>>
+\* a network hanging off a triangle: the cycle does not contain the source network, so only the hop count stops a
+\* broadcast (on the other three the routers of the source network drop what comes back: SADR spoof check)
+Lollipop == MkTopo(<< <<1, 2>>, <<2, 3>>, <<3, 4>>, <<4, 2>> >>, <<K, U, K, U>>)
+mcCyc == <<Triangle, Parallel, Lollipop>>
+mcTri == <<Triangle>>
+mcCycBig == <<Triangle, Parallel, Lollipop, Square>>
 
 \* ---- one fixed internetwork for replay (line of three networks, as in the design spike) --------
 Line3 == MkTopo(<< <<1, 2>>, <<2, 3>> >>, <<K, K, KU>>)
